@@ -20,6 +20,11 @@ def main(argv=None) -> int:
     ap.add_argument("--replay", default=None, help="replay file written by an earlier run: re-evaluates the property and shows that obligation")
     a = ap.parse_args(argv)
     pid = a.property.upper()
+    if os.path.abspath(a.root) != "/repo" and not os.environ.get("VERIF_EVIDENCE_DIR"):
+        # scratch copies (selftest, triage of old commits) never overwrite the committed evidence of /repo
+        import tempfile
+
+        os.environ["VERIF_EVIDENCE_DIR"] = tempfile.mkdtemp(prefix="verif-ev-")
     seed = int(os.environ.get("VERIF_SEED", "0") or 0)
     chk = None
     try:
